@@ -89,6 +89,13 @@ def main():
             out["seeded"] = list(ex.map(seeded, dirs))
             out["neutral"] = fut_n.result()
         # c. syntactic mutants of the anchored functions
+        if prop == "C19" and n_mut > 0:
+            import pymut
+            total, res = pymut.measure(n_mut, seed, jobs)
+            cnt = {s: sum(1 for r in res if r["status"] == s) for s in ("killed", "survived", "invalid", "error")}
+            out["mutants"] = {"generated_in_anchored_functions": total, "sampled": len(res), "seed": seed, **cnt,
+                              "survivors": [f"{r['file']}:{r['line']} {r['desc']}" for r in res if r["status"] == "survived"],
+                              "sample_killed": [{"mutant": f"{r['file']}:{r['line']} {r['desc']}", "by": r.get("by", [])[:2]} for r in res if r["status"] == "killed"][:8]}
         if prop != "C19" and n_mut > 0:
             total, res = M.measure(prop, V.REPO, base_bad, obs, tmp, n_mut, seed, jobs)
             cnt = {s: sum(1 for r in res if r["status"] == s) for s in ("killed", "survived", "invalid", "error")}
